@@ -185,12 +185,24 @@ def _concat(w1, w2):
 
 
 def free_eq_obligations(chk, name, a, b, **kw):
-    """a == b in the free algebra: one poly-NF obligation per word."""
+    """a == b in the free algebra: ONE obligation (all word coefficients must be proved equal); the first failing word is reported.
+    The obligation name does not depend on which words happen to survive structural cancellation."""
+    import time
+
     a = a if isinstance(a, Free) else Free({(): a})
     b = b if isinstance(b, Free) else Free({(): b})
-    out = []
-    for w in sorted(a.words() | b.words(), key=lambda w: (len(w), w)):
-        out.append(chk.eq(f"{name}<{'.'.join(w) if w else '1'}>", a.coeff(w), b.coeff(w), **kw))
-    if not out:
-        out.append(chk.ground(f"{name}<0=0>", True, fn=kw.get("fn"), goal=kw.get("goal")))
-    return out
+    from .core import Check
+
+    sub = Check(chk.pid, chk.tier, chk.seed, chk.level)
+    sub.rng = chk.rng
+    t0 = time.time()
+    words = sorted(a.words() | b.words(), key=lambda w: (len(w), w))
+    for w in words:
+        o = sub.eq(f"{name}<{'.'.join(w) if w else '1'}>", a.coeff(w), b.coeff(w), **kw)
+        if o["verdict"] != "discharged":
+            chk._nf_spent += sub._nf_spent
+            return [chk.record(o["name"], o["verdict"], o["backend"], time.time() - t0, o.get("fn"), o.get("goal"), o.get("detail"), o.get("witness"), o.get("replay"))]
+    chk._nf_spent += sub._nf_spent
+    for s_ in sub.trusted:
+        chk.trust(s_)
+    return [chk.record(name, "discharged", "poly-NF" if words else "syntactic-identity", time.time() - t0, kw.get("fn"), (kw.get("goal") or "") + f"  [{len(words)} words]", replay=kw.get("replay"))]
